@@ -56,6 +56,12 @@ def gen(rng, tier):
     ndefs = 200 if tier == "quick" else 1500
     for i in range(ndefs):
         doc = xmlgen.to_xml_loadable(defgen.rnd_definition(rng, apid_name="PKT_APID" if i % 5 else "APID"))
+        for prm in doc["params"].values():        # spline points need not be listed in ascending order
+            e = prm["type"]["enc"]
+            cals = ([e.get("default")] if e.get("t") == "num" else []) + ([cx["cal"] for cx in (e.get("context") or [])] if e.get("t") == "num" else [])
+            for cal in cals:
+                if cal and cal[0] == "spline" and rng.random() < 0.4:
+                    rng.shuffle(cal[3])
         ns = rng.choice([("prefix", "xtce"), defgen.rnd_prefix(rng), ("default",), ("none",)])
         try:
             omit = rng.choice([None, rng.randrange(1 << 30)])
@@ -90,7 +96,7 @@ def key(case):
 def branch(case, out):
     if isinstance(out, core.Err):
         return out.kind
-    kinds = sorted(set({0: "parsed", 1: "unrecognized", 2: "raw"}[it[0]] + ("-warned" if it[0] == 0 and it[3] else "") for it in out[0]))
+    kinds = sorted(set({0: "parsed", 1: "unrecognized", 2: "raw"}.get(it[0], "bad-views") + ("-warned" if it[0] == 0 and it[3] else "") for it in out[0]))
     types = sorted(set(p["type"]["kind"] for p in case["doc"]["params"].values()))
     return ",".join(kinds or ["none"]) + ("|fatal" if out[1] else "") + "|" + "+".join(types)
 
